@@ -305,6 +305,14 @@ func (e *Engine) applySpecUF(fr *Frame, st *State, fn *ssa.Function, args []Valu
 		body := e.flat(vals[0], res.At(0).Type())[0]
 		st.pc = tmp.pc
 		st.assume(Eq(app, body))
+		if e.unfoldFuel > 1 && !strings.HasPrefix(fn.Name(), "spec_opq_") {
+			// with explicit fuel the unfolded body itself is used, so that sums
+			// of words become syntactic sums
+			e.unfoldCache[key] = body
+			return []Value{scalar(body)}
+		}
+	} else if b, ok := e.unfoldCache[key]; ok && e.unfoldFuel > 1 {
+		return []Value{scalar(b)}
 	}
 	return []Value{scalar(app)}
 }
